@@ -51,7 +51,8 @@ def build_text(a, b, sep, pos, final, tight):
         if not (sep.startswith('\n') or sep.startswith('\r\n')):
             return None
     elif sep == '':
-        if not (is_delim(a) or is_delim(b) or b_com):
+        if not (is_delim(a) or is_delim(b) or b_com
+                or gen_lex.adjacent_ok(a, b)):
             return None
 
     def ser(x):
@@ -120,6 +121,16 @@ def features(text, exp):
     if any('\r' in s for s in outside):
         f.add('cr-not-whitespace')
 
+    flat = [t for t in refreader.strip_comments(toks) if t not in '()']
+    pos = 0
+    for a, b in zip(toks, toks[1:]):
+        i = text.index(a, pos)
+        pos = i + len(a)
+        if a not in '()' and b not in '()' and not refreader.is_comment(b) \
+                and text[pos:pos + 1] == b[:1] and b[0] in '|"' \
+                and a[0] not in '|"':
+            f.add('delimiter-adjacency')
+
     def walk(items, top):
         for idx, it in enumerate(items):
             if isinstance(it, list):
@@ -142,8 +153,9 @@ def classify(text, exp, got, exc):
         if 'toplevel-literal' in f:
             return 'toplevel-literal-crash'
         return f'exception:{exc}'
+    if 'delimiter-adjacency' in f:
+        return 'token-not-ended-by-quote-or-bar'
     if 'cr-not-whitespace' in f:
-        # does the mismatch vanish when CR separators become LF?
         return 'cr-not-whitespace'
     if 'comment-first-in-list-hoisted' in f:
         return 'comment-first-in-list-hoisted'
@@ -151,6 +163,8 @@ def classify(text, exp, got, exc):
         return 'toplevel-atom-at-eof-lost'
     if 'toplevel-literal' in f:
         return 'toplevel-literal'
+    if 'delimiter-adjacency' in f:
+        return 'token-not-ended-by-quote-or-bar'
     return 'unclassified'
 
 
